@@ -52,6 +52,8 @@ impl<'a> StringParser<'a> {
 
     #[inline]
     fn next_char(&mut self) -> Option<char> {
+        #[cfg(rustpython_parser_verif)]
+        crate::verif::step();
         let c = self.chars.next()?;
         self.location += c.text_len();
         Some(c)
